@@ -1,4 +1,7 @@
 import ApolloModel.Proofs.Numbers3
+import ApolloModel.Proofs.NumbersParse
+import ApolloModel.Proofs.TypeText
+import ApolloModel.Proofs.ParserWhole
 /-
 C10 — Names, numbers and type references are well-formed.
 
@@ -52,5 +55,67 @@ example : validInt "-0".toList = true := by decide
 example : validInt "01".toList = false := by decide
 example : intToString (-7) = ['-', '7'] := by simp [intToString, natDigits, digitChar]
 example : RustF64Display "-0".toList := ⟨"-0".toList, [], by simp, ⟨['0'], Or.inr rfl, Or.inl rfl⟩, Or.inl rfl⟩
+
+/-! ### growth: the two round trips -/
+
+/-- **Integers: print then parse is the identity, for every integer** (hence every `i32`): the decimal
+    printer `intToString` (model of `i32::to_string`, used by `From<i32> for IntValue`) followed by the
+    decimal parser `parseDec` (model of `str::parse`, used by `try_to_i32`). -/
+theorem int_print_parse (i : Int) : parseDec (intToString i) = some i := Num.parseDec_intToString i
+
+/-- `IntValue::from(v).try_to_i32() == Ok(v)` for every `v` in the `i32` range. -/
+theorem i32_roundtrip (i : Int) (h : inI32 i = true) : tryToI32 (intToString i) = some i :=
+  Num.tryToI32_intToString i h
+
+/-- The converse half: for a text with IntValue syntax (`-?(0|[1-9][0-9]*)`; `-0` is one, `00` and `+1`
+    are not) `try_to_i32` has a decimal value to look at, succeeds with that value when it fits `i32`, and
+    fails exactly when it does not — overflow is the only error, as the doc comment of `try_to_i32` says. -/
+theorem try_to_i32_fails_iff_overflow (s : Str) (h : validInt s = true) :
+    ∃ v, parseDec s = some v ∧ (tryToI32 s = none ↔ inI32 v = false) ∧ (inI32 v = true → tryToI32 s = some v) :=
+  Num.tryToI32_of_validInt s h
+
+/-- **Type references: Display then `Type::parse`**, for EVERY type reference of unbounded nesting whose
+    names are `Name`s.  The text printed by `Display for Type` (`tyText`)
+    (1) lexes without any error item,
+    (2) to exactly the tokens of the type (no ignored token in between) followed by EOF,
+    (3) is accepted by the type entry point (`parse_type`, C07's parser model) without any error when the
+        list nesting does not exceed the recursion limit,
+    (4) which consumes the whole input,
+    (5) and the reference AST parser reads the tokens back as the same type.
+    Step (5) uses the reference parser `pTy` (tied to `from_cst.rs` by the streams c08.ast and c10.typert),
+    not a model of the CST→AST conversion. -/
+theorem type_display_parse_roundtrip (t : Ast.Ty) (hwf : Ast.tyNamesWf t = true) (rl : Nat)
+    (hd : Parse.tyDepth t ≤ rl) :
+    (∀ it ∈ Lex.lex none (Ast.tyText t), it.isErr = false) ∧
+    Ast.sigToks (Lex.lex none (Ast.tyText t)) = some (Ast.tTy t) ∧
+    (Parse.parse .type none rl (Ast.tyText t)).errors = [] ∧
+    (Parse.parse .type none rl (Ast.tyText t)).leftover = [] ∧
+    Ast.pTy (Ast.szTy t) (Ast.tTy t) = some (t, []) := by
+  have herr := Parse.parseType_tyText rl t hwf hd
+  obtain ⟨root, hroot⟩ := Parse.parseType_tree none rl (Ast.tyText t)
+  refine ⟨?_, Ast.sigToks_tyText t hwf, herr,
+    Parse.standalone_whole_input .type (Or.inl rfl) rl _ root hroot herr, ?_⟩
+  · intro it hit
+    rw [Ast.lex_tyText_whole t hwf] at hit
+    rcases List.mem_append.mp hit with h1 | h1
+    · exact Ast.tyItems_no_err t it h1
+    · have : it = .tok .eof [] := by simpa using h1
+      rw [this]; rfl
+  · have := Ast.ty_roundtrip t (Ast.szTy t) [] (Nat.le_refl _) (by simp)
+    simpa using this
+
+/-- different types print different token lists (so the type read back is the only candidate) -/
+theorem type_tokens_injective (t t' : Ast.Ty) (h : Ast.tTy t = Ast.tTy t') : t = t' := by
+  have a := Ast.ty_roundtrip t (max (Ast.szTy t) (Ast.szTy t')) [] (Nat.le_max_left _ _) (by simp)
+  have b := Ast.ty_roundtrip t' (max (Ast.szTy t) (Ast.szTy t')) [] (Nat.le_max_right _ _) (by simp)
+  rw [h] at a
+  rw [a] at b
+  simpa using b
+
+-- Non-vacuity
+example : parseDec "-2147483648".toList = some (-2147483648) := by decide
+example : tryToI32 "2147483648".toList = none := by decide
+example : tryToI32 "-0".toList = some 0 := by decide
+example : Ast.tyText (.nonNullList (.list (.nonNullNamed "A_1".toList))) = "[[A_1!]]!".toList := by decide
 
 end Apollo.C10
